@@ -4,7 +4,7 @@ Import ListNotations.
 From GV Require Import gen.Gen_memo C01.Heap C01.HeapLemmas C01.Model C01.Lemmas1 C05.Model.
 From GV Require Export C05.Lemmas1.
 From GV Require Import C05.Post C05.PostLemmas.
-From GV Require C05.Memo C05.MemoLemmas.
+From GV Require C05.Memo C05.MemoLemmas C05.MemoLink.
 
 Lemma coherentE_empty_memo : forall den h, coherentE den (mkstate h []).
 Proof. intros den h k a H. simpl in H. discriminate. Qed.
@@ -308,3 +308,10 @@ Definition memoize_refines_store := MemoLemmas.memoize_refines_store.
 Definition consulted_dict_is_cleared_dict := MemoLemmas.consulted_dict_is_cleared_dict.
 Definition clear_mask_caches_empties_every_store := MemoLemmas.clear_mask_caches_empties_every_store.
 Definition rebinding_refuted := MemoLemmas.rebinding_refuted.
+
+(* the per-function stores put together = the ONE memo of the C01 / C05 model; the evaluator's memo operations are wrapper calls (MemoLink.v) *)
+Definition stores_joined_are_memo := MemoLink.stores_joined_are_memo.
+Definition clear_fns_all := MemoLink.clear_fns_all.
+Definition translated_memoize_is_model_memo := MemoLink.translated_memoize_is_model_memo.
+Definition with_memo_e_is_wrapper_call := MemoLink.with_memo_e_is_wrapper_call.
+Definition clear_path_is_clear_cache := MemoLink.clear_path_is_clear_cache.
